@@ -44,7 +44,7 @@ META = {
                  'raw NUL inside a firebird/sybase/maxdb/mssql/postgres statement is modelled as refused (C-string client APIs)'],
     'assumptions': ['string primary keys: ids that look numeric are excluded (the link-table columns are declared INT; that is DDL, C14)',
                     'PostgreSQL runs with standard_conforming_strings=on (default since 9.1), MySQL without NO_BACKSLASH_ESCAPES and ANSI_QUOTES',
-                    'ENUM/CHECK DDL fragments are sequences of string literals joined by ", " (covered by the sequence theorem; the DDL text is C14)'],
+                    'ENUM/CHECK DDL: the literal list is the sequence rendering (theorem C02_enum_literal_list); the surrounding column type text is checked by tokenising the real EnumCol type methods and by createTable + inserts on SQLite (its grammar is C14)'],
     'exhaustive': False,
 }
 
@@ -523,6 +523,7 @@ def run(ctx):
     run_sqlite_roundtrip(ctx, strings)
     run_like(ctx)
     run_strids(ctx)
+    run_enum(ctx)
 
 
 def scalar_value(rng):
@@ -1032,6 +1033,180 @@ def run_strids(ctx):
                     ctx.oracle_fail(KEY_INST, 'sqlrepr(<instance with id %r>, %r) = %r: the bare id text, not a literal' % (o.id, d, text), desc)
                 else:
                     ctx.oracle_fail('C02:%s:instance-value:%s' % (d, spec), 'sqlrepr(instance) = %r' % text, desc)
+
+
+
+# ------------------------------------------------------------------ ENUM / CHECK DDL position
+ENUM_TYPES = {'mysql': '_mysqlType', 'postgres': '_postgresType', 'sqlite': '_sqliteType', 'sybase': '_sybaseType',
+              'mssql': '_mssqlType', 'firebird': '_firebirdType'}      # maxdb: EnumCol raises TypeError by design
+ENUM_PIECES = ["'", '\\', '\n', '\t', '\r', '\x08', '%', '_', 'a', 'b', 'n', 't', ' ', ')', '(', ',', '--', ';', '"', 'E', '\xe9']
+
+
+def enum_fragment(col, d):
+    t = getattr(col, ENUM_TYPES[d])()
+    return ' '.join(t) if isinstance(t, tuple) else t
+
+
+def enum_want(d, name, values):
+    """expected tokens of the column type text: each declared value ONE literal of dialect d, in order"""
+    lits = []
+    for i, v in enumerate([v for v in values if not (d == 'mysql' and v is None)]):
+        lits += [('P', ',')] * (i > 0) + [('W', 'NULL') if v is None else ('S', v)]
+    if d == 'mysql':
+        return [('W', 'ENUM'), ('P', '(')] + lits + [('P', ')')]
+    n = max(len(v) if v is not None else 0 for v in values)
+    return [('W', 'VARCHAR'), ('P', '('), ('W', str(n)), ('P', ')'), ('W', 'CHECK'), ('P', '('), ('W', name), ('W', 'in'),
+            ('P', '(')] + lits + [('P', ')'), ('P', ')')]
+
+
+def near_misses(v):
+    """strings a wrongly escaped literal of v would admit instead of v"""
+    out = set([v.replace('\\', '\\\\'), v.replace('\n', '\\n').replace('\t', '\\t').replace('\r', '\\r').replace('\x08', '\\b'),
+               v.replace('\\', '\\\\').replace('\n', '\\n').replace('\t', '\\t'), v.replace("'", "''"), v.replace("'", ''),
+               v.replace('\\', ''), v + "'", 'E' + v])
+    out.discard(v)
+    return out
+
+
+def run_enum(ctx):
+    sqlo.setup()
+    from sqlobject import SQLObject, EnumCol
+    rng = ctx.rng
+    conn = env()['conn']
+    cases = [['plain', "it's", 'back\\slash', 'two\nlines', 'tab\there', '100%_'], ["'"], ['\\'], ["a'", "'a", "''"], ['\\n', '\n'],
+             ['x', None], ["E'", 'e'], ['a\\', '\\a'], ['\r\x08'], ['a,b', 'a', 'b'], [') OR (1=1', "'); DROP TABLE t; --"]]
+    for _ in range(ctx.budget(60, 3000)):
+        vals = []
+        for _ in range(rng.randint(1, 4)):
+            v = ''.join(rng.choice(ENUM_PIECES) for _ in range(rng.randint(1, 4))) if rng.random() < 0.8 else rand_string(rng, 4)
+            if v not in vals:
+                vals.append(v)
+        if rng.random() < 0.15:
+            vals.append(None)
+        cases.append(vals)
+    specs = []
+    for vals in cases:
+        for d in DIALECTS:
+            vs = [v for v in vals if not (d == 'mysql' and v is None)]
+            specs.append('v %s L( %s)' % (d, ''.join(('N ' if v is None else 'S:%s ' % enc(v)) for v in vs)))
+    outs = ctx.model(specs)
+    k = -1
+    for vals in cases:
+        cls = type(sqlo.uniq('C02Enum'), (SQLObject,), {'_connection': conn, 'kind': EnumCol(enumValues=list(vals), default=None)})
+        col = cls.sqlmeta.columns['kind']
+        strs = [v for v in vals if v is not None]
+        nul = any('\x00' in v for v in strs)
+        for d in DIALECTS:
+            k += 1
+            desc = {'dialect': d, 'enumValues': [None if v is None else enc(v) for v in vals]}
+            ctx.case(('enum', d, tuple(vals)), kind='enum-ddl')
+            if d not in ENUM_TYPES:
+                continue
+            try:
+                frag = enum_fragment(col, d)
+            except Exception as ex:
+                frag = 'error:%s' % type(ex).__name__
+            toks = ref_tokens(d, frag)
+            want = enum_want(d, 'kind', vals)
+            if outs is not None and not frag.startswith('error:'):
+                lst = frag[4:] if d == 'mysql' else frag[frag.index(' in ') + 4:-1]
+                ctx.compare('ENUM/CHECK literal list (%s): model sequence rendering = code' % d, desc, outs[k].split(' | ')[0], enc(lst))
+            refused_ok = nul and d != 'mysql'
+            if any(altered(d, v) for v in strs):
+                ctx.count('enum:skipped (contains a string with the string-level defect)')
+            elif (toks is None and not refused_ok) or (toks is not None and toks != want):
+                def bad(vs):
+                    c2 = type(sqlo.uniq('C02Enum'), (SQLObject,), {'_connection': conn, 'kind': EnumCol(enumValues=vs)})
+                    return ref_tokens(d, enum_fragment(c2.sqlmeta.columns['kind'], d)) != enum_want(d, 'kind', vs)
+                m = strs[:]
+                try:      # one value, then its characters
+                    for v in strs:
+                        if '\x00' not in v and bad([v]):
+                            m = [minimise(v, lambda x: bool(x) and bad([x]))]
+                            break
+                except Exception:
+                    pass
+                ctx.oracle_fail('C02:%s:enum-ddl:values=%s' % (d, ','.join(enc(v) for v in m)),
+                                'the %s column type %r of EnumCol(enumValues=%r) tokenises to %s: the declared values are not '
+                                'rendered as one literal each of that dialect' % (d, frag, vals, show_toks(toks)), desc)
+        # ---- executed: createTable through the library on the real SQLite; the CHECK admits exactly the declared values
+        if nul:
+            continue
+        ctx.case(('enum-exec', tuple(vals)), kind='enum-exec')
+        desc = {'dialect': 'sqlite', 'enumValues': [None if v is None else enc(v) for v in vals]}
+        try:
+            cls.createTable()
+        except Exception as ex:
+            ctx.oracle_fail('C02:sqlite:enum-create:%s' % ','.join(enc(v) for v in strs),
+                            'createTable of EnumCol(enumValues=%r) raises %s: %s' % (vals, type(ex).__name__, ex), desc)
+            continue
+        tbl = cls.sqlmeta.table
+        for v in strs:
+            try:
+                row = cls(kind=v)
+                got = conn.queryOne('SELECT kind FROM %s WHERE id = %d' % (tbl, row.id))[0]
+            except Exception as ex:
+                got = 'error:%s' % type(ex).__name__
+            if got != v:
+                ctx.oracle_fail('C02:sqlite:enum-declared-value-refused-or-altered:%s' % enc(minimise_enum(v)),
+                                'EnumCol(enumValues=%r): storing the declared value %r gives %r' % (vals, v, got), desc)
+                break
+        # with None declared the list contains NULL and `x in (.., NULL)` is never false: the CHECK admits anything (SQL semantics, C14)
+        for v in (strs if None not in vals else []):
+            for u in sorted(near_misses(v)):
+                if u in strs or '\x00' in u:
+                    continue
+                try:
+                    env()['conn'].query('INSERT INTO %s (kind) VALUES (%s)' % (tbl, "'%s'" % u.replace("'", "''")))
+                    admitted = True
+                except Exception:
+                    admitted = False
+                if admitted:
+                    ctx.oracle_fail('C02:sqlite:enum-undeclared-value-admitted:%s' % enc(minimise_enum(v)),
+                                    'EnumCol(enumValues=%r): the CHECK admits the undeclared value %r' % (vals, u), desc)
+                    break
+        try:
+            cls.dropTable()
+        except Exception:
+            pass
+
+
+def minimise_enum(v):
+    """smallest part of v that alone makes an enum column misbehave on the real SQLite"""
+    from sqlobject import SQLObject, EnumCol
+    conn = env()['conn']
+
+    def bad(x):
+        if not x or '\x00' in x:
+            return False
+        c = type(sqlo.uniq('C02Enum'), (SQLObject,), {'_connection': conn, 'kind': EnumCol(enumValues=[x], default=None)})
+        try:
+            c.createTable()
+        except Exception:
+            return True
+        try:
+            try:
+                r = c(kind=x)
+                if conn.queryOne('SELECT kind FROM %s WHERE id = %d' % (c.sqlmeta.table, r.id))[0] != x:
+                    return True
+            except Exception:
+                return True
+            for u in near_misses(x):
+                try:
+                    conn.query('INSERT INTO %s (kind) VALUES (%s)' % (c.sqlmeta.table, "'%s'" % u.replace("'", "''")))
+                    return True
+                except Exception:
+                    pass
+            return False
+        finally:
+            try:
+                c.dropTable()
+            except Exception:
+                pass
+    try:
+        return minimise(v, bad) if bad(v) else v
+    except Exception:
+        return v
 
 
 def replay(case):
